@@ -253,3 +253,54 @@ prop(
                  "the tree cursor over nodes is abstracted to a cursor over the sorted entry list; that abstraction is what the correspondence validates"],
     explanation="iterator modelled as tree-cursor + commit-overlay merge exactly as iter_inner does it (pending item, last key, re-seek on change); proved checker for raw tree dumps",
 )
+
+
+CRASH_RULE = ("histories as for C01 but without clean reopen steps (so the pipeline gets deep), run on the real Db with the stepping API while the "
+              "harness interposes fdatasync/fsync/msync/ftruncate/unlink and receives the append/enact/store/truncate events of hook H2/H3; at sampled instants "
+              "(after every step, inside the enactment of a record after each store, inside a log append at a random byte length, just before a truncation) the "
+              "directory is copied as an image: crash (page cache survives), torn-log (the appended tail cut at a random byte), power (each file as of its last "
+              "sync plus a random subset of the 4 KiB pages written since, log tail cut at random); every image is opened with the real Db::open, all keys read, "
+              "one more commit driven through and the image reopened. A history is non-trivial when at least one image was taken inside an append, inside an "
+              "enactment or from durable copies; distinct = histories")
+
+prop(
+    id="C02", module="Properties.C02", vfile="Properties/C02.v", level="proof", subcmd="c02",
+    theorems=["C02_crash_recovers_prefix", "C02_accepted_trace_reaches", "C02_recovery_restartable", "C02_recovery_after_partial_recovery"],
+    counts={"quick": 160, "thorough": 6000, "search": 640},
+    rule=CRASH_RULE,
+    assumptions=["a record of the abstract model is the list of absolute cell writes of one log record; that the bytes of a record decode to those writes is the codec model (C13) and the real replay",
+                 "the planner (which writes a commit turns into) is the pipeline model of C01; multitree columns and index growth are not part of the crash histories",
+                 "crash points are sampled at file-operation boundaries and random byte lengths, not enumerated"],
+    explanation="abstract WAL protocol (append / sync / store / finish / flush / truncate) with an invariant tying page cache, durable image and log; theorem: replaying the kept records over "
+                "the surviving tables gives the state after m records for every admissible m; the implementation's event traces are accepted by the executable protocol on every run",
+    trusted_extra=["syscall interposition in the harness binary (#[no_mangle] fdatasync/fsync/msync/ftruncate/unlink forwarding to libc via dlsym RTLD_NEXT): a sync call makes the whole file durable, nothing else does",
+                   "the tracker of harness/src/props/crash.rs that turns hook events H2/H3 and syscalls into protocol events, durable copies and directory images"],
+    timeout={"quick": 3000, "thorough": 20000},
+)
+prop(
+    id="C12", module="Properties.C12", vfile="Properties/C12.v", level="proof", subcmd="c12",
+    theorems=["C12_power_loss_recovers_prefix", "C12_accepted_trace_power_loss", "C12_store_only_synced", "C12_truncate_only_flushed", "C12_D1_needed", "C12_D2_needed"],
+    counts={"quick": 160, "thorough": 6000, "search": 640},
+    rule=CRASH_RULE + "; the C12 run takes power-loss images only more often and the oracle demands every synced record present",
+    assumptions=["a sync call makes the whole file durable and nothing else does (interposed fdatasync/fsync/msync are the only durability points); page granularity 4 KiB",
+                 "sync_wal = sync_data = true (the defaults)"],
+    explanation="same protocol with a durable image: dirty cells hold arbitrary values after power loss; theorem for every reachable state; both ordering rules are guards of the trace acceptor",
+    trusted_extra=["syscall interposition in the harness binary (#[no_mangle] fdatasync/fsync/msync/ftruncate/unlink forwarding to libc via dlsym RTLD_NEXT): a sync call makes the whole file durable, nothing else does",
+                   "the tracker of harness/src/props/crash.rs that turns hook events H2/H3 and syscalls into protocol events, durable copies and directory images"],
+    timeout={"quick": 3000, "thorough": 20000},
+)
+prop(
+    id="C13", module="Properties.C13", vfile="Properties/C13.v", level="proof", subcmd="c13",
+    theorems=["C13_replay_applies_only_valid_consecutive", "C13_accepted_record_is_complete_and_checksummed", "C13_nothing_after_invalid",
+              "C13_scanner_total", "C13_surviving_prefix_gives_prefix_state", "C13_older_prefix_over_newer_tables_refuted"],
+    counts={"quick": 160, "thorough": 6000, "search": 640},
+    rule=CRASH_RULE + "; C13 images are taken at record boundaries and then damaged by one of: truncation at a random offset, one flipped bit, 2-16 bytes of garbage, "
+         "garbage appended, file deleted, file duplicated under a later name, size field 0x7fff planted, file cut below the header length, stray junk file; "
+         "the raw bytes of all log files (up to 6000 bytes) go to the extracted codec model, whose applied ids are compared with the ids the real replay enacts",
+    assumptions=["table-generation check of index records (index_bits known to the column) is not in the codec model; histories of this check have no index growth",
+                 "bytes are < 256 (they are u8 in the implementation)"],
+    explanation="byte-level model of record parsing (structure, per-table payload lengths, CRC-32) and of the replay acceptance; theorems for arbitrary bytes; CRC-32 model compared with crc32fast",
+    trusted_extra=["syscall interposition in the harness binary (#[no_mangle] fdatasync/fsync/msync/ftruncate/unlink forwarding to libc via dlsym RTLD_NEXT): a sync call makes the whole file durable, nothing else does",
+                   "the tracker of harness/src/props/crash.rs that turns hook events H2/H3 and syscalls into protocol events, durable copies and directory images"],
+    timeout={"quick": 3000, "thorough": 20000},
+)
